@@ -51,6 +51,29 @@ def run(tier):
             r = run_shards(vg, [base + ["--mode", mode, "--shard", "%d/%d" % (400 + i, N)] + extra for i in range(N)], valgrind=True, timeout=7000)
             v.absorb(r, "valgrind:" + mode)
             tot["valgrind.%s.steps" % mode] = sum(n for k, n in r.counters.items() if k.startswith("hist."))
+    # compiler-generated zones: the shipped Zone/Rule lines and tzdata 2025b compiled afresh by the real compiler (its
+    # Python ZoneSpecifier decides the recorded transitionBufSize), the generated tables run by the real processors; only the
+    # buffer monitors and the sanitizers are read here, the semantic comparison of those runs is C03's
+    from props import c03 as c03mod
+    jobs = [["recon-x", "--grid", 360, "--nbhd", 10, "--targets", "arduino"], ["tz2025b", "--grid", 360, "--nbhd", 10, "--targets", "arduino"]]
+    if not q:
+        jobs.append(["features", "--grid", 60, "--nbhd", 10, "--targets", "arduino"])
+    gen_zones = 0
+    for argv, r in c03mod.run_workers(jobs, parallel=len(jobs), jobs_each=max(2, N // len(jobs))):
+        for inc in r["inconclusive"]:
+            v.inconclusive_because("generated tables (%s): %s" % (argv[0], inc))
+        for viol in r["violations"]:
+            k = viol["key"]
+            if k.endswith((":transition-pool-high-water", ":basic-transition-dropped", ":basic-cache-invariant", ":generated-table-sweep-crash")) \
+                    or k.startswith(("asan:", "ubsan:")):
+                v.violation("c09:generated:" + k.split(":", 1)[1] if k.startswith("c03:") else k,
+                            "freshly generated tables: " + viol["what"], viol.get("witness"))
+        gen_zones += int(r["stats"].get("ar.sweep.zones", 0))
+        tot["generated.%s.zones" % argv[0]] = int(r["stats"].get("ar.sweep.zones", 0))
+        tot["generated.%s.max_high_water" % argv[0]] = int(r["stats"].get("ar.max_high_water", -1))
+        tot["generated.%s.basic_hook_zones" % argv[0]] = int(r["stats"].get("ar.sweep.hook_checked_zones", 0))
+    if gen_zones < 600:
+        v.inconclusive_because("too few compiler-generated zones were run (%d)" % gen_zones)
     if os.environ.get(vlib.GUARD) != "1":
         v.inconclusive_because("hook guard off: basic cache overflow not observable")
     if tot.get("hist.buffer_year_fills", 0) < 387 * 3 * 52 or tot.get("hist.basic_hook_zones", 0) < 268 or \
@@ -70,7 +93,9 @@ def run(tier):
                 "getDeltaOffset, getAbbrev, getOffsetDateTime, printTo} on fresh basic and extended time zones: non-valid arguments "
                 "must answer with error values, also when repeated; (3) buffer bounds: every zone of zonedbx, every year "
                 "1999..2050 ascending, descending and via getOffsetDateTime, high-water mark read after each fill (< recorded "
-                "size and < 8); every zone of zonedb with the guarded dropped-transition hook; (4) the C08 histories without "
+                "size and < 8); every zone of zonedb with the guarded dropped-transition hook; (3b) the same two monitors over tables "
+                "generated afresh by the real compiler from the shipped Zone/Rule lines and from tzdata 2025b (the compiler's own "
+                "ZoneSpecifier decides each recorded size), every year 2000..2049; (4) the C08 histories without "
                 "shadow. distinct = distinct sequences + distinct (zone, year, pass) fills." % (3 if q else 4),
         "samples": samples[:6] + [{"max_high_water": maxima.get("hist.max_high_water")}],
         "counters": tot,
